@@ -729,7 +729,8 @@ def run_c01(pid, tier, rep, deadline_s):
 
 def run_c18(pid, tier, rep, deadline_s):
     run_gram(pid, tier, rep, deadline_s); cov = dict(rep.coverage)
-    totals, samples, bounds, extra = run_progs(pid, rep, [dict(name='c18l', src='c18_long.cpp', label='custom lexer with 5 terms answering lengths 1..200000 (one-dimensional sweep): slices, positions and match() requests')], deadline_s)
+    totals, samples, bounds, extra = run_progs(pid, rep, [dict(name='c18l', src='c18_long.cpp', label='custom lexer with 5 terms answering lengths 1..200000 (one-dimensional sweep): slices, positions and match() requests'),
+         dict(name='c18p', src='c05_dsl.cpp', args=[6, 'custom'], label='custom terms carrying precedence and associativity (also left/right associativity at precedence 0) against their char-term twins under the generated lexer, inputs<=6')], deadline_s)
     rep.coverage = merge_cov(cov, {'states': totals['cases'], 'transitions': totals['checks'], 'traces_validated_against_impl': totals['cases'], 'samples': samples, 'evaluations': totals['cases'], 'distinct_nontrivial': totals['cases'], 'bounds': bounds,
                                    'exhaustive': all(b['completed'] for b in bounds), 'rule': 'Compiled part (one-dimensional sweep, not exhaustive): a 5-term custom lexer whose answers have lengths 1, 255..257, 65534..65537, 70000, 131071, 131072, 200000 (single-line and multi-line lexemes, up to 70000 statements): every term must reach its functor with exactly the answered slice and its true line/column, and match() must be requested exactly at the term starts with the true source point.'})
 
